@@ -333,6 +333,12 @@ class Gen:
                 k = self.pick_obj("tk")
                 L.append("S tk_reg %d" % k)
                 R.append("R tk %d 0 0 tk_reg %d" % (k, k))      # keeps re-registering itself
+                if self.n["tm"] and r.random() < 0.6:
+                    # ... taking its time, while a timer comes due
+                    R.append("R tk %d 0 0 tick 0 %d" % (k, r.choice([300000, 2000000, 40000000])))
+                    t = self.pick_obj("tm")
+                    L.append("S tm_reg %d 1 0 %d" % (t, r.choice([1000000, 5000000, 100000000])))
+                    R.append("R tm %d 0 1 tk_unreg %d" % (t, k))
                 if self.n["fd"]:
                     f = self.pick_obj("fd")
                     L += ["S fd_newos %d" % f, "S fd_reg %d 1 0 0" % f, "S pwrite %d 3" % f]
@@ -471,7 +477,7 @@ def fixed_fd_scripts(prefix, methods=METHODS):
 
 def gen_scripts(seed, count, methods=METHODS, kinds=None, faultgen=None, prefix="r", modes=None, nfd=3):
     """count scripts, each instantiated for every method (same program)."""
-    out = fixed_fd_scripts(prefix, methods) if (kinds is None or "fd" in kinds) and not faultgen else []
+    out = fixed_fd_scripts(prefix, methods) if (kinds is None or "fd" in kinds) else []
     for i in range(count):
         rs = random.Random((seed << 20) + i)
         g = Gen(rs, kinds=kinds, modes=modes, nfd=nfd)
